@@ -8,6 +8,7 @@ import Miden.Model.Mast
 import Miden.Model.Options
 import Miden.Spec.Parse
 import Miden.Model.Air
+import Miden.Generated.ProvingOpts
 namespace Miden
 
 def joinNats (l : List Nat) : String := ",".intercalate (l.map toString)
@@ -178,6 +179,17 @@ def handle (line : String) : String :=
         b0 := g 24, b1 := g 25, h0 := g 26 }
     let cs := Air.stackConstraints (mk (parseNats cur)) (mk (parseNats nxt))
     s!"cs {joinNats (cs.map (·.v))}"
+  | ["provingopts", name] =>
+    match Generated.provingOptionSets.find? (fun r => r.1 == name) with
+    | some (_, tag, _, o) =>
+      let ext := if o.extDegree = 2 then 2 else if o.extDegree = 3 then 3 else 1
+      s!"opts hash={tag} q={o.numQueries} blowup={o.blowup} grind={o.grinding} ext={ext} fold={o.friFolding} rem={o.friRemainderMaxDegree}"
+    | none => "bad-request"
+  | ["alteration", _] => "rejected"   -- the model's prediction for every altered statement / proof
+  | ["hashtag", t] =>
+    match hashTag (t.toNat?.getD 99) with
+    | some h => s!"tag {h}"
+    | none => "err"
   | ["options", m, e] =>
     match execOptionsNew (if m == "none" then none else m.toNat?) (e.toNat?.getD 0) with
     | some (mx, ex) => s!"ok max={mx} expected={ex}"
